@@ -119,7 +119,43 @@ func init() {
 			var src strings.Builder
 			src.WriteString("{namespace t}\n{template .u}U{/template}\n")
 			msgSafe := map[string]bool{"print": true, "sp": true, "nil": true, "call": true, "tab-char": true, "newline-char": true, "msg-open": true, "msg-close": true, "template-start": false}
+			type sib struct{ name, nonspace string }
+			var sibs []sib
+			// siblings: the same text run next to a comment, elsewhere in the same file (before or after the
+			// exact case). They are judged modulo whitespace; their purpose is to expose cross-talk between
+			// text runs of one file (caches, shared scanner state).
+			addSibling := func(t string, variant int) {
+				if strings.Contains(t, "/") {
+					return
+				}
+				name := fmt.Sprintf("s%d", len(sibs))
+				var body string
+				switch variant % 4 {
+				case 0:
+					body = "{nil}" + t + "/* c */{nil}"
+				case 1:
+					body = "{nil}/* c */" + t + "{nil}"
+				case 2:
+					body = "{nil}" + t + " // c\n{nil}"
+				default:
+					body = "{$ij.x}" + t + "/* c */{$ij.x}"
+				}
+				src.WriteString("{template ." + name + "}" + body + "{/template}\n")
+				want := stripSpace(t)
+				if variant%4 == 3 {
+					want = "X" + want + "X"
+				}
+				sibs = append(sibs, sib{name, want})
+			}
 			add := func(t string, l, r c15Neighbor) {
+				if len(cases)%7 == 3 {
+					addSibling(t, len(cases)/7)
+				}
+				defer func() {
+					if len(cases)%7 == 5 {
+						addSibling(t, len(cases)/7+1)
+					}
+				}()
 				// inside a message only print, call and special-character neighbours are legal
 				if l.name == "msg-open" && !msgSafe[r.name] {
 					r = c15Right[1]
@@ -187,6 +223,14 @@ func init() {
 					}
 				}
 				return fw.Result{Verdict: fw.Held}
+			}
+			for _, sb := range sibs {
+				got, err := render(tofu, "t."+sb.name, d, &ijv, nil)
+				ctx.Obs("comment_siblings", 1)
+				if err != nil || stripSpace(got) != sb.nonspace {
+					return fw.Result{Verdict: fw.Violated, Key: "comment-sibling-mismatch", Case: file,
+						Msg: fmt.Sprintf("template %s (text run next to a comment): want non-space characters %q, got %q (err %v)", sb.name, sb.nonspace, got, err)}
+				}
 			}
 			for _, c := range cases {
 				got, err := render(tofu, "t."+c.name, d, &ijv, nil)
